@@ -4,7 +4,7 @@ import json, os
 
 def T(k, **kw): d = {"k": k}; d.update(kw); return d
 TYPES = [T("Integer"), T("Char"), T("Char", n=8), T("String"), T("String", n=255), T("Text"), T("Blob"), T("TinyInteger"), T("SmallInteger"), T("BigInteger"),
-         T("TinyUnsigned"), T("SmallUnsigned"), T("Unsigned"), T("BigUnsigned"), T("Float"), T("Double"), T("Decimal"), T("Decimal", p=10, s=2), T("DateTime"), T("Timestamp"),
+         T("TinyUnsigned"), T("SmallUnsigned"), T("Unsigned"), T("BigUnsigned"), T("Float"), T("Double"), T("Decimal"), T("Decimal", p=10, s=2), T("Decimal", p=16, s=4), T("Decimal", p=1, s=0), T("Decimal", p=17, s=2), T("DateTime"), T("Timestamp"),
          T("TimestampWithTimeZone"), T("Time"), T("Date"), T("Year"), T("Binary", n=16), T("Binary", n=1), T("VarBinary", n=64), T("VarBinary"), T("String", max=True), T("Bit"), T("Bit", n=4), T("VarBit", n=9), T("Boolean"),
          T("Money"), T("Money", p=12, s=4), T("Json"), T("JsonBinary"), T("Uuid"), T("Enum", name="mood", variants=["sad", "ok", "it's"]), T("Cidr"), T("Inet"), T("MacAddr"), T("LTree"),
          T("Array", elem=T("Integer")), T("Array", elem=T("String", n=8)), T("Interval"), T("Interval", n=3), T("Custom", name="citext"), T("Vector", n=3)]
@@ -50,6 +50,8 @@ FOLLOW = [None,
           {"stmt": "index_create", "name": "ix9", "table": "t", "cols": [{"n": "c"}], "unique": True,
            "wheres": [{"k": "bin", "op": "GreaterThan", "l": {"k": "col", "n": "b"}, "r": {"k": "val", "v": V("Int", "5")}}, {"k": "isnull", "e": {"k": "col", "n": "c"}, "neg": False}],
            "where": {"k": "bin", "op": "And", "l": {"k": "bin", "op": "GreaterThan", "l": {"k": "col", "n": "b"}, "r": {"k": "val", "v": V("Int", "5")}}, "r": {"k": "isnull", "e": {"k": "col", "n": "c"}, "neg": False}}, "where_cols": ["b", "c"]},
+          {"stmt": "index_create", "name": "ix\"q`r", "table": "t", "cols": [{"n": "b"}]},
+          {"stmt": "index_drop", "name": "ix\"q`r", "table": "t"},
           {"stmt": "index_create", "name": "ix4", "table": "t", "cols": [{"n": "c"}], "index_type": "Hash"},
           {"stmt": "index_create", "name": "ix5", "table": "t", "cols": [{"n": "c"}], "index_type": "FullText"},
           {"stmt": "index_create", "name": "ix6", "table": "t", "cols": [{"n": "b"}], "unique": True, "include": ["c"], "nulls_not_distinct": True},
